@@ -11,5 +11,7 @@ import glob
 mods=["import "+f[5:-5].replace("/",".") for f in sorted(glob.glob("lean/Faithful/Lib/*.lean")+glob.glob("lean/Faithful/Properties/*.lean"))]
 open("lean/Faithful.lean","w").write("\n".join(mods)+"\n")
 PY
-(cd lean && lake build Faithful fdrv)
+# each property builds its own targets again in ./check; a module that fails here must not stop the others
+cd lean
+for f in Faithful/Properties/C*.lean; do p=$(basename $f .lean); lake build Faithful.Properties.$p fdrv-$p >/dev/null 2>&1 || echo "setup: $p does not build"; done
 echo setup ok
